@@ -132,10 +132,14 @@ def gen_fault(ch):
     elif kind == 'duplicate-key':
         key = ch.pick(['id', 'title', 'description'])
         val = {'id': ['p1', 'p2'], 'title': ['"a"', '"b"'], 'description': ['"a"', '"b"']}[key]
-        extra = ch.pick(['', '# id: first ', '# title: "t" '])
-        if key in extra:
-            extra = ''
-        bad = f'{extra}# {key}: {val[0]} # {key}: {val[1]} globally: no a'
+        others = [k for k in ('id', 'title', 'description') if k != key]
+        oval = {'id': 'other', 'title': '"t"', 'description': '"d"'}
+        # the two occurrences may be adjacent or separated by other keys, with other keys before / after
+        items = [f'# {key}: {val[0]}']
+        for o in ch.sample(others, min_size=0, max_size=2):
+            items.insert(ch.int(0, len(items)), f'# {o}: {oval[o]}')
+        items.insert(ch.int(0, len(items)), f'# {key}: {val[1]}')
+        bad = ' '.join(items) + ' globally: no a'
         expect = 'syntax'
         parts.insert(pos, bad)
     elif kind == 'unknown-key':
